@@ -19,13 +19,58 @@ OFFSET = int(os.environ.get('ID_OFFSET', '0'))
 OUT = '/verif/seeded'
 # private copy of the checker so that rebuilding /verif/bin during a long
 # confirmation run does not change the verdicts half-way
-BIN = f'/tmp/clusterlint-confirm-{os.getpid()}'
+BIN = f'/verif/bin/clusterlint-confirm-{os.getpid()}'  # beside the real one: the fixture path is relative to it
+STATIC_ONLY = os.environ.get('STATIC_ONLY') == '1'
 NOBUILD = ('cluster.go', 'allocate.go', 'rpc_api.go', 'util.go', 'cluster_config.go', 'api/rest/', 'cmdutils/', 'cmd/ipfs-cluster-service', 'cmd/ipfs-cluster-follow')
 
 
 def run(cmd, cwd, timeout=1500):
     p = subprocess.run(cmd, cwd=cwd, env=ENV, shell=True, stdout=subprocess.PIPE, stderr=subprocess.STDOUT, timeout=timeout)
     return p.returncode, p.stdout.decode(errors='replace')
+
+
+def find_demo_cmd(demo):
+    """(-run pattern, package path) from the `go test` line in the demo's header."""
+    text = re.sub(r'\\\s*\n\s*(//)?\s*', ' ', demo)
+    for line in text.splitlines():
+        if 'go test' not in line or '-run' not in line:
+            continue
+        mm = re.search(r"-run[ =]+'?\"?([^'\"\s]+)", line)
+        if not mm:
+            continue
+        pkg = None
+        for tok in line.split():
+            tok = tok.strip('`\'"')
+            if tok == '.' or re.fullmatch(r'\./[\w\-/\.]*', tok):
+                pkg = tok
+        if pkg is None:
+            pm = re.search(r'^package (\w+)', demo, re.M)
+            if pm and pm.group(1) in ('ipfscluster', 'ipfscluster_test'):
+                pkg = '.'
+        if pkg:
+            return mm.group(1), pkg
+    return None
+
+
+def mk_overlay(wt, ovd):
+    """Build overlay dropping the quic-transport import lines (the only reason the
+    root package, api/rest and cmdutils do not build on this toolchain). Must be
+    regenerated after the patch is applied: the overlay replaces the files."""
+    for src_f, dst_f in (('clusterhost.go', 'clusterhost.go'), ('api/rest/restapi.go', 'restapi.go')):
+        with open(os.path.join(wt, src_f)) as fi, open(os.path.join(ovd, dst_f), 'w') as fo:
+            fo.writelines(l for l in fi if 'libp2pquic' not in l)
+    json.dump({'Replace': {f'{wt}/clusterhost.go': f'{ovd}/clusterhost.go', f'{wt}/api/rest/restapi.go': f'{ovd}/restapi.go'}}, open(f'{ovd}/overlay.json', 'w'))
+    return f'-overlay {ovd}/overlay.json '
+
+
+def static_verdict(wt, meta, ran):
+    rc, o = run(f'{BIN} -repo {wt} -property all -no-evidence -no-cache', '/verif', timeout=900)
+    meta['type_checks'] = 'BROKEN' not in o
+    det = sorted(set(re.findall(r'^(?:VIOLATED|UNDECIDED) (\S+)', o, re.M)))
+    props = sorted(set(re.findall(r'^VIOLATION property=(C\d+)', o, re.M)))
+    meta['clusterlint_detects'] = det
+    meta['clusterlint_properties_alarmed'] = props
+    ran.append('patched: clusterlint -property all -> ' + (', '.join(det) if det else 'NO DETECTION'))
 
 
 def confirm(prop, k):
@@ -36,53 +81,48 @@ def confirm(prop, k):
     patch = open(f'{src}/patch.diff').read()
     touched = sorted(set(re.findall(r'^\+\+\+ b/(\S+)', patch, re.M)))
     demo = open(f'{src}/demo_test.go').read() if os.path.exists(f'{src}/demo_test.go') else ''
-    m = re.search(r"go test[^\n]*-run\s+'?([^'\s]+)'?[^\n]*?\s(\./[\w/\-\.]*)", demo)
     meta = {'seed': sid, 'property': prop, 'touched_files': touched, 'origin': 'independent sub-agent given only the property text and a scratch worktree'}
     readme = open(f'{src}/README.md').read() if os.path.exists(f'{src}/README.md') else ''
     meta['needs_to_manifest'] = extract_needs(readme)
     wt = tempfile.mkdtemp(prefix=f'cf-{sid}-', dir='/tmp')
     os.rmdir(wt)
+    ovd = tempfile.mkdtemp(prefix='ov-', dir='/tmp')
     try:
         rc, out = run(f'git -C /repo worktree add -q --detach {wt} HEAD', '/')
         if rc != 0:
             meta['error'] = 'worktree: ' + out
             return sid, meta
+        if STATIC_ONLY and os.path.exists(f'{OUT}/{sid}/meta.json'):
+            meta = json.load(open(f'{OUT}/{sid}/meta.json'))
+            ran = [l for l in meta.get('what_was_run', []) if 'clusterlint' not in l]
+            rc, o = run(f'git apply {src}/patch.diff', wt)
+            static_verdict(wt, meta, ran)
+            meta['what_was_run'] = ran
+            return sid, meta
         ran = []
-        nobuild = any(t.startswith(n) or t == n for t in touched for n in NOBUILD)
-        overlay = ''
-        rootseed = nobuild and all('/' not in t for t in touched)
-        if rootseed:
-            # the root package builds once the quic transport import lines
-            # are dropped through a build overlay (found by the C10 seeding
-            # agent); nothing in the worktree is modified
-            ovd = tempfile.mkdtemp(prefix='ov-', dir='/tmp')
-            for src_f, dst_f in (('clusterhost.go', 'clusterhost.go'), ('api/rest/restapi.go', 'restapi.go')):
-                with open(os.path.join(wt, src_f)) as fi, open(os.path.join(ovd, dst_f), 'w') as fo:
-                    fo.writelines(l for l in fi if 'libp2pquic' not in l)
-            json.dump({'Replace': {f'{wt}/clusterhost.go': f'{ovd}/clusterhost.go', f'{wt}/api/rest/restapi.go': f'{ovd}/restapi.go'}}, open(f'{ovd}/overlay.json', 'w'))
-            overlay = f'-overlay {ovd}/overlay.json '
-            mm = re.search(r"-run\s+'?([^'\s]+)'?", demo)
-            m = None
-            if mm:
-                class M:  # minimal match-like object
-                    def __init__(s, a, b): s.a, s.b = a, b
-                    def group(s, i): return (None, s.a, s.b)[i]
-                m = M(mm.group(1), '.')
-            meta['note'] = 'root package: built and tested through a build overlay that drops the quic-transport import lines of clusterhost.go and api/rest/restapi.go (the only reason it does not build on this toolchain)'
-        if m and (not nobuild or rootseed):
-            pat, pkg = m.group(1), m.group(2)
-            pkgdir = os.path.join(wt, pkg.lstrip('./')) if pkg != '.' else wt
+        cmd = find_demo_cmd(demo)
+        if cmd:
+            pat, pkg = cmd
+            needs_ov = True  # harmless for packages that build anyway
+            overlay = mk_overlay(wt, ovd) if needs_ov else ''
+            if needs_ov:
+                meta['note'] = 'built and tested through a build overlay that drops the quic-transport import lines of clusterhost.go and api/rest/restapi.go (the only reason the root package, api/rest and cmdutils do not build on this toolchain); the overlay is regenerated after the patch is applied'
+            pkgdir = os.path.join(wt, pkg.lstrip('./')) if pkg not in ('.', './') else wt
             demofile = os.path.join(pkgdir, 'zz_seed_demo_test.go')
             shutil.copy(f'{src}/demo_test.go', demofile)
             rc0, o0 = run(f"go test {overlay}-vet=off -count=1 -timeout 1200s -run '{pat}' {pkg}", wt)
             ran.append(f"clean tree: go test -run '{pat}' {pkg} -> {'PASS' if rc0 == 0 else 'FAIL'}")
             meta['demo_passes_without_change'] = rc0 == 0
+            if rc0 != 0:
+                meta['clean_failure_excerpt'] = o0[-800:]
             os.remove(demofile)
             rc, o = run(f'git apply {src}/patch.diff', wt)
             meta['patch_applies'] = rc == 0
             if rc != 0:
                 meta['error'] = 'apply: ' + o[-500:]
                 return sid, meta
+            if needs_ov:
+                overlay = mk_overlay(wt, ovd)
             pkgs = sorted(set(('./' + os.path.dirname(t) + '/') if '/' in t else '.' for t in touched))
             rcb, ob = run(f'go build {overlay}' + ' '.join(pkgs), wt)
             meta['compiles'] = rcb == 0
@@ -90,6 +130,8 @@ def confirm(prop, k):
             rct, ot = run(f'go test {overlay}-vet=off -count=1 -timeout 1500s ' + ' '.join(pkgs), wt, timeout=1800)
             flaky = 'TestWindow_Distribution' in ot and ot.count('--- FAIL') <= 2
             meta['existing_tests_pass_with_change'] = rct == 0 or flaky
+            if rct != 0 and not flaky:
+                meta['existing_tests_failure_excerpt'] = [l for l in ot.splitlines() if '--- FAIL' in l or l.startswith('FAIL')][:8]
             ran.append(f"patched: go test {' '.join(pkgs)} -> {'PASS' if rct == 0 else ('PASS (known-flaky TestWindow_Distribution only)' if flaky else 'FAIL')}")
             shutil.copy(f'{src}/demo_test.go', demofile)
             rc1, o1 = run(f"go test {overlay}-vet=off -count=1 -timeout 1200s -run '{pat}' {pkg}", wt)
@@ -103,20 +145,14 @@ def confirm(prop, k):
             rc, o = run(f'git apply {src}/patch.diff', wt)
             meta['patch_applies'] = rc == 0
             meta['confirmed'] = False
-            meta['note'] = 'touches a package that does not build with this toolchain (root / api/rest / cmdutils): compile and tests not run here; confirmed by type-checking (clusterlint loader) and by reading'
-        # static verdict
-        rc, o = run(f'{BIN} -repo {wt} -property all -no-evidence -no-cache', '/verif', timeout=900)
-        meta['type_checks'] = 'BROKEN' not in o
-        det = sorted(set(re.findall(r'^(?:VIOLATED|UNDECIDED) (\S+)', o, re.M)))
-        props = sorted(set(re.findall(r'^VIOLATION property=(C\d+)', o, re.M)))
-        meta['clusterlint_detects'] = det
-        meta['clusterlint_properties_alarmed'] = props
-        ran.append('patched: clusterlint -property all -> ' + (', '.join(det) if det else 'NO DETECTION'))
+            meta['note'] = 'no runnable `go test -run` command found in the demonstration header'
+        static_verdict(wt, meta, ran)
         meta['what_was_run'] = ran
         return sid, meta
     finally:
         subprocess.run(f'git -C /repo worktree remove --force {wt}', shell=True, stdout=subprocess.DEVNULL, stderr=subprocess.DEVNULL)
         shutil.rmtree(wt, ignore_errors=True)
+        shutil.rmtree(ovd, ignore_errors=True)
 
 
 def extract_needs(readme):
